@@ -130,6 +130,26 @@ def one(arg):
                 c = abs(X[[a, b]].corr('spearman').iloc[0, 1]) if dtype == 'float' else tschuprow(X[a], X[b])
                 rec('select#post.no_two_returned_features_associated_above_thresh_corr', not (c > tc + 1e-9), '%s and %s: association %.4f > thresh_corr %.2f' % (a, b, c, tc), dict(dtype=dtype))
     else:
+        # Exactly tied features (duplicates, negated / rescaled copies) have the SAME association with the target; the statistic of x and of -x is computed from
+        # reversed ranks and may differ in its last bits, so which of two tied features comes first after a NEGATION is decided by rounding noise.  For that one
+        # re-encoding two selections are compared after replacing every feature by its tie class (features whose recomputed association agrees to 9 digits); every
+        # other re-encoding (rescaling by a power of two, renaming, row / column permutation) leaves the computation bit-identical and is compared exactly.
+        def tie_classes():
+            cls = {}
+            for dtype, feats in (('float', quant), ('str', qual)):
+                if kind == 'ClassificationSelector': meas = kruskal_h if dtype == 'float' else tschuprow
+                elif dtype == 'str': meas = lambda x, yy: kruskal(*[yy[x == c_] for c_ in x.dropna().unique()])[0]
+                else: meas = lambda x, yy: abs(pd.concat([x, yy], axis=1).dropna().corr().iloc[0, 1])
+                for f in feats:
+                    try: v = float(meas(X[f], y))
+                    except Exception: v = float('nan')
+                    cls[f] = f if v != v else (dtype, float('%.9g' % v))
+            return cls
+        _cls = tie_classes()
+        class _Sel(list):
+            def __eq__(self, other): return [_cls.get(f, f) for f in self] == [_cls.get(f, f) for f in other]
+            def __ne__(self, other): return not self.__eq__(other)
+        sel_exact = list(sel); sel_ties = _Sel(sel)          # tie classes are only used where the re-encoding changes the floating-point computation itself (negation reverses the ranks)
         def again(X2, quant2=quant, qual2=qual, ren=None):
             r2 = outcome(lambda: make_selector(kind, quant2, qual2, n_best, thresh_corr=tc).select(X2, y2 if False else y))
             return r2
@@ -137,21 +157,21 @@ def one(arg):
         for name, fn in (('negated', lambda v: -v), ('rescaled_x4', lambda v: v * 4.0), ('rescaled_x0.5', lambda v: v * 0.5)):
             X2 = X.copy(); q = rng.choice([f for f in quant if f != 'qconst']); X2[q] = fn(X2[q])
             r2 = outcome(lambda: make_selector(kind, quant, qual, n_best, thresh_corr=tc).select(X2, y))
-            rec('select#post.invariant_under_quantitative_%s' % ('negation' if name == 'negated' else 'positive_rescaling'), r2[0] == 'ok' and list(r2[1]) == sel, 'feature %s %s: %r instead of %r' % (q, name, r2[1] if r2[0] == 'ok' else r2[0], sel), dict(reencoding=name, feature=q))
+            rec('select#post.invariant_under_quantitative_%s' % ('negation' if name == 'negated' else 'positive_rescaling'), r2[0] == 'ok' and (sel_ties if name == 'negated' else sel) == list(r2[1]), 'feature %s %s: %r instead of %r' % (q, name, r2[1] if r2[0] == 'ok' else r2[0], sel), dict(reencoding=name, feature=q))
         # (2) rename categories
         X2 = X.copy(); c = rng.choice([f for f in qual if f != 'cconst']); X2[c] = X2[c].map(lambda v: v if isinstance(v, float) else 'renamed_' + str(v)[::-1])
         r2 = outcome(lambda: make_selector(kind, quant, qual, n_best, thresh_corr=tc).select(X2, y))
-        rec('select#post.invariant_under_category_renaming', r2[0] == 'ok' and list(r2[1]) == sel, 'categories of %s renamed: %r instead of %r' % (c, r2[1] if r2[0] == 'ok' else r2[0], sel), dict(feature=c))
+        rec('select#post.invariant_under_category_renaming', r2[0] == 'ok' and sel == list(r2[1]), 'categories of %s renamed: %r instead of %r' % (c, r2[1] if r2[0] == 'ok' else r2[0], sel), dict(feature=c))
         # (3) permute rows / columns / listing order
         p = list(range(len(X))); rng.shuffle(p)
         r2 = outcome(lambda: make_selector(kind, quant, qual, n_best, thresh_corr=tc).select(X.iloc[p], y.iloc[p]))
-        rec('select#post.invariant_under_row_permutation', r2[0] == 'ok' and list(r2[1]) == sel, 'rows permuted: %r instead of %r' % (r2[1] if r2[0] == 'ok' else r2[0], sel))
+        rec('select#post.invariant_under_row_permutation', r2[0] == 'ok' and sel == list(r2[1]), 'rows permuted: %r instead of %r' % (r2[1] if r2[0] == 'ok' else r2[0], sel))
         cols = list(X.columns); rng.shuffle(cols)
         r2 = outcome(lambda: make_selector(kind, quant, qual, n_best, thresh_corr=tc).select(X[cols], y))
-        rec('select#post.invariant_under_column_permutation', r2[0] == 'ok' and list(r2[1]) == sel, 'columns of X permuted (%r): %r instead of %r' % (cols, r2[1] if r2[0] == 'ok' else r2[0], sel))
+        rec('select#post.invariant_under_column_permutation', r2[0] == 'ok' and sel == list(r2[1]), 'columns of X permuted (%r): %r instead of %r' % (cols, r2[1] if r2[0] == 'ok' else r2[0], sel))
         # (3b) X listed in another row order than y (same index labels): pandas aligns on labels, the selection must not change
         r2 = outcome(lambda: make_selector(kind, quant, qual, n_best, thresh_corr=tc).select(X.iloc[p], y))
-        rec('select#post.invariant_under_row_permutation', r2[0] == 'ok' and list(r2[1]) == sel, 'rows of X listed in another order than y (same labels): %r instead of %r' % (r2[1] if r2[0] == 'ok' else r2[0], sel), dict(reencoding='X_rows_only'))
+        rec('select#post.invariant_under_row_permutation', r2[0] == 'ok' and sel == list(r2[1]), 'rows of X listed in another order than y (same labels): %r instead of %r' % (r2[1] if r2[0] == 'ok' else r2[0], sel), dict(reencoding='X_rows_only'))
         # (3c) a user-supplied outlier measure in front of the association measure: negation must not change the selection
         if kind == 'ClassificationSelector':
             from AutoCarver.selectors.measures import zscore_measure, kruskal_measure
